@@ -22,7 +22,7 @@ ASSUMPTIONS = ["pomerol's own debug assertions (TermList::check_terms, Hermitici
                "OMP_NUM_THREADS=1"]
 CONFIG = {
     "quick": {"flavours": ["real-san", "complex-san"], "shards": 8, "examples": 500, "min_nontrivial": 200, "budget_s": 100},
-    "thorough": {"flavours": ["real-san", "complex-san"], "shards": 16, "examples": 1500, "min_nontrivial": 3000, "budget_s": 3400},
+    "thorough": {"flavours": ["real-san", "complex-san", "fuzz"], "shards": 16, "examples": 1500, "min_nontrivial": 3000, "budget_s": 3400},
 }
 REQUIRED_CLASSES = {"quick": ["offdiag-gf", "offdiag-susc", "chi-default", "chi-empty-table", "1x1-block", "sparse-family", "c4-container", "vertex"],
                     "thorough": ["offdiag-gf", "offdiag-susc", "chi-default", "chi-empty-table", "1x1-block", "sparse-family", "c4-container", "vertex", "truncate"]}
@@ -177,7 +177,24 @@ def build_queries(case):
 LIB_ASSERT = re.compile(r"(?:src/pomerol|include/pomerol|src/mpi_dispatcher|include/mpi_dispatcher)/[A-Za-z0-9_]+\.(?:cpp|h|hpp):\d+: [^\n]*Assertion `")
 
 
+def pre_campaign(tier, seed):
+    """thorough tier: coverage-guided libFuzzer campaign on the in-process workflow target (engine/fuzz/fuzz_workflow.cpp)"""
+    if tier != "thorough":
+        return None
+    import drive
+    stats, crashes = drive.run_fuzzer("fuzz_workflow", seed, 900, workers=12, max_len=160)
+    failures = [{"case": {"kind": "fuzz-bytes", "target": "fuzz_workflow", "hex": c.hex()}, "detail": {"what": "libFuzzer workflow target crashed (sanitizer report)"},
+                 "signature": "fuzz-crash"} for c in crashes[:1]]
+    return {"failures": failures, "coverage": {"libfuzzer": stats}, "evaluations": stats["executions"], "nontrivial_hashes": [], "classes": {"libfuzzer-executions": stats["executions"]}}
+
+
 def execute(case, ctx):
+    if case.get("kind") == "fuzz-bytes":
+        import drive
+        crashed, err = drive.replay_fuzz(case["target"], bytes.fromhex(case["hex"]))
+        if crashed:
+            return Result("fail", ["fuzz"], True, {"what": "libFuzzer artifact reproduces", "stderr": err}, "fuzz-crash:" + crash_signature(err))
+        return Result("ok", ["fuzz"], False)
     mdl = case["model"]
     q, classes = build_queries(case)
     classes += model_classes(mdl)
